@@ -23,10 +23,12 @@ NodeCfgs == <<
   {E("mp", "value", "B", "int", 6)} >>                                            \* 9 missing needscfg value
 Name(k) == "m" \o ToString(k)
 (* how the modules are served: all polled / unpolled, unpolled on an io, polled / on io, polled by io, unpolled *)
-KindVecs == << <<"polled", "polled", "polled">>, <<"unpolled", "onio", "polled">>, <<"onio", "pio", "unpolled">> >>
+KindVecs == << <<"polled", "polled", "polled">>, <<"unpolled", "onio", "polled">>, <<"onio", "pio", "unpolled">>,
+              <<"polled", "noclass", "unpolled">> >>
 ScenTable == [plain1 |-> <<"plain", 1>>, share1 |-> <<"share", 1>>, twice1 |-> <<"twice", 1>>,
               plain2 |-> <<"plain", 2>>, share2 |-> <<"share", 2>>, twice2 |-> <<"twice", 2>>,
-              plain3 |-> <<"plain", 3>>, share3 |-> <<"share", 3>>, twice3 |-> <<"twice", 3>>]
+              plain3 |-> <<"plain", 3>>, share3 |-> <<"share", 3>>, twice3 |-> <<"twice", 3>>,
+              plain4 |-> <<"plain", 4>>]
 mode == ScenTable[scen][1]
 kvec == ScenTable[scen][2]
 KindOfMod(k) == KindVecs[kvec][k]
@@ -46,7 +48,7 @@ Files == IF split = 0 THEN << [k \in 1 .. NMods |-> Mod(k)] >>
 Merged == Merge(Files)
 Emit1 == Len(assign) = NMods =>
    PrintT(<<"BEH", ToJson([files |-> Files, mode |-> mode, iopolled |-> (kvec # 3),
-                           allowed |-> [m \in DOMAIN Merged |-> Allowed(Merged[m])],
+                           allowed |-> [m \in DOMAIN Merged |-> Allowed(Merged[m])],   \* (of the configuration alone)
                            origin |-> [m \in DOMAIN Merged |-> FirstFile(Files, m)],
                            writes |-> [m \in DOMAIN Merged |-> WriteSet(Merged[m])]])>>)
 =============================================================================
